@@ -85,6 +85,23 @@ def Rot(a, angle, around=None):
     return {"k": "rotate", "a": a, "angle": angle, "around": list(around) if around is not None else None}
 
 
+def Rot3(a, angle, axis="z", around=None):
+    """rotation of a 3-D expression about a coordinate axis through `around` (the library gets the 3x3 matrix)"""
+    return {"k": "rotate", "a": a, "angle": angle, "around": list(around) if around is not None else None, "axis": axis}
+
+
+def _axis_rot(d, al, axis, inverse=False):
+    """rotate the rows of d (n,3) by the angles al (n,) about a coordinate axis"""
+    if inverse:
+        al = -al
+    ca, sa = np.cos(al), np.sin(al)
+    i, j = {"z": (0, 1), "x": (1, 2), "y": (2, 0)}[axis]
+    out = d.copy()
+    out[:, i] = ca * d[:, i] - sa * d[:, j]
+    out[:, j] = sa * d[:, i] + ca * d[:, j]
+    return out
+
+
 def B(a):
     return {"k": "boundary", "a": a}
 
@@ -145,7 +162,8 @@ def show(a):
     if k == "translate":
         return "Tr(%s,%s)" % (show(a["a"]), e(a["v"]))
     if k == "rotate":
-        return "Rot(%s,%s%s)" % (show(a["a"]), e(a["angle"]), "" if a["around"] is None else "@" + e(a["around"]))
+        return "Rot%s(%s,%s%s)" % ("3" + a["axis"] if a.get("axis") else "", show(a["a"]), e(a["angle"]),
+                                   "" if a["around"] is None else "@" + e(a["around"]))
     if k == "boundary":
         return "d%s" % show(a["a"])
     if k == "bleft":
@@ -245,7 +263,7 @@ def substitute(a, fixed):
     for key, val in a.items():
         if isinstance(val, dict):
             out[key] = substitute(val, fixed)
-        elif key in ("k", "var", "verts", "holes", "disjoint", "contained", "shape", "winding", "source"):
+        elif key in ("k", "var", "verts", "holes", "disjoint", "contained", "shape", "winding", "source", "axis"):
             out[key] = val
         else:
             out[key] = sub(val)
@@ -362,6 +380,9 @@ def pullback(a, vals):
         al = ev(a["angle"], vals, n)
         c = evv(a["around"], vals, n) if a["around"] is not None else np.zeros_like(x)
         d = x - c
+        if a.get("axis"):
+            v2[var] = _axis_rot(d, al, a["axis"], inverse=True) + c
+            return v2
         ca, sa = np.cos(al), np.sin(al)
         # inverse rotation
         v2[var] = np.stack([ca * d[:, 0] + sa * d[:, 1], -sa * d[:, 0] + ca * d[:, 1]], axis=1) + c
@@ -376,6 +397,8 @@ def pushforward(a, x, vals):
     al = ev(a["angle"], vals, n)
     c = evv(a["around"], vals, n) if a["around"] is not None else np.zeros_like(x)
     d = x - c
+    if a.get("axis"):
+        return _axis_rot(d, al, a["axis"]) + c
     ca, sa = np.cos(al), np.sin(al)
     return np.stack([ca * d[:, 0] - sa * d[:, 1], sa * d[:, 0] + ca * d[:, 1]], axis=1) + c
 
@@ -538,10 +561,20 @@ def ref_box(a, vals):
                  np.broadcast_to(np.asarray(inner["verts"], dtype=np.float64), (n, len(inner["verts"]), 2)))
             w = np.stack([pushforward(a, v[:, i], vals) for i in range(v.shape[1])], 1)
             return np.stack([w.min(1), w.max(1)], 2)
-        if inner["k"] == "circle":
+        if inner["k"] in ("circle", "sphere"):
             c = pushforward(a, evv(inner["c"], vals, n), vals)
             r = ev(inner["r"], vals, n)[:, None]
             return np.stack([c - r, c + r], 2)
+        if inner["k"] == "mesh":
+            from . import poly3d
+            V = np.asarray(poly3d.SHAPES[inner["shape"]][0], dtype=np.float64)
+            w = np.stack([pushforward(a, np.broadcast_to(V[i], (n, 3)).copy(), vals) for i in range(len(V))], 1)
+            return np.stack([w.min(1), w.max(1)], 2)
+        if a.get("axis"):
+            b = ref_box(a["a"], vals)
+            corners = [np.stack([b[:, 0, i], b[:, 1, j], b[:, 2, l]], 1) for i in (0, 1) for j in (0, 1) for l in (0, 1)]
+            w = np.stack([pushforward(a, cc, vals) for cc in corners], 1)
+            return np.stack([w.min(1), w.max(1)], 2)
         b = ref_box(a["a"], vals)
         corners = [np.stack([b[:, 0, i], b[:, 1, j]], 1) for i in (0, 1) for j in (0, 1)]
         w = np.stack([pushforward(a, cc, vals) for cc in corners], 1)
@@ -562,7 +595,7 @@ def box_is_tight(a):
         inner = a["a"]
         while inner["k"] == "boundary":
             inner = inner["a"]
-        return inner["k"] in ("para", "tri", "poly", "circle")
+        return inner["k"] in ("para", "tri", "poly", "circle", "sphere", "mesh")
     if k == "prod":
         return box_is_tight(a["a"]) and box_is_tight(a["b"])
     return False
